@@ -513,65 +513,73 @@ func heldAtCalls(fn *ssa.Function) []heldCall {
 		}
 		return o
 	}
-	var out map[*ssa.Call][]heldLock
-	for iter := 0; iter < 2; iter++ {
-		out = map[*ssa.Call][]heldLock{}
-		work := []*ssa.BasicBlock{fn.Blocks[0]}
-		seen := map[*ssa.BasicBlock]int{}
-		for len(work) > 0 {
-			b := work[0]
-			work = work[1:]
-			if seen[b] > 8 {
+	// transfer function of one block; record = note the locks held at each call
+	out := map[*ssa.Call][]heldLock{}
+	flow := func(b *ssa.BasicBlock, record bool) state {
+		st := clone(in[b])
+		for _, ins := range b.Instrs {
+			call, ok := ins.(*ssa.Call)
+			if !ok {
 				continue
 			}
-			seen[b]++
-			st := clone(in[b])
-			for _, ins := range b.Instrs {
-				call, ok := ins.(*ssa.Call)
-				if !ok {
-					continue
-				}
-				if op, isLock := lockOp(&call.Call); isLock {
-					mp := an.PathOf(call.Call.Args[0])
-					switch op {
-					case "Lock":
-						st[mp] = true
-					case "RLock":
-						if _, has := st[mp]; !has {
-							st[mp] = false
-						}
-					default:
-						delete(st, mp)
+			if op, isLock := lockOp(&call.Call); isLock {
+				mp := an.PathOf(call.Call.Args[0])
+				switch op {
+				case "Lock":
+					st[mp] = true
+				case "RLock":
+					if _, has := st[mp]; !has {
+						st[mp] = false
 					}
-					continue
+				default:
+					delete(st, mp)
 				}
-				if len(st) > 0 {
-					var hl []heldLock
-					for k, v := range st {
-						hl = append(hl, heldLock{k, v})
-					}
-					sort.Slice(hl, func(i, j int) bool { return hl[i].path < hl[j].path })
-					out[call] = hl
-				}
+				continue
 			}
-			for i, s := range b.Succs {
-				if an.DeadEdge(b, i) {
-					continue
-				}
-				old, had := in[s]
-				merged := clone(old)
-				changed := !had
+			if record && len(st) > 0 {
+				var hl []heldLock
 				for k, v := range st {
-					if ov, ok := merged[k]; !ok || (v && !ov) {
-						merged[k] = v || ov
-						changed = true
-					}
+					hl = append(hl, heldLock{k, v})
 				}
-				if changed {
-					in[s] = merged
-					work = append(work, s)
+				sort.Slice(hl, func(i, j int) bool { return hl[i].path < hl[j].path })
+				out[call] = hl
+			}
+		}
+		return st
+	}
+	// fixpoint of the may-hold sets, then one recording pass
+	work := []*ssa.BasicBlock{fn.Blocks[0]}
+	visits := map[*ssa.BasicBlock]int{}
+	for len(work) > 0 {
+		b := work[0]
+		work = work[1:]
+		if visits[b] > 16 {
+			continue
+		}
+		visits[b]++
+		st := flow(b, false)
+		for i, s := range b.Succs {
+			if an.DeadEdge(b, i) {
+				continue
+			}
+			old, had := in[s]
+			merged := clone(old)
+			changed := !had
+			for k, v := range st {
+				if ov, ok := merged[k]; !ok || (v && !ov) {
+					merged[k] = v || ov
+					changed = true
 				}
 			}
+			if changed {
+				in[s] = merged
+				work = append(work, s)
+			}
+		}
+	}
+	for _, b := range fn.Blocks {
+		if _, reached := in[b]; reached {
+			flow(b, true)
 		}
 	}
 	var res []heldCall
